@@ -125,7 +125,7 @@ def run(ctx):
                        "C locale for isalpha/isdigit/isascii; allocation never fails (C12 covers failures)",
                        "hash chains are abstracted (a map is its insertion-ordered key list); validated with > 66 keys"]
     ctx.rule = ("evaluation = one op executed on model and library with equal outcome lines; distinct non-trivial = "
-                "distinct scripts (by content) that contain at least one successful modifying op")
+                "distinct scripts (by content) that contain at least one modifying op")
     thorough = ctx.tier == "thorough"
 
     ok, res = ctx.coq_obligations(VFILES)
